@@ -179,6 +179,8 @@ impl<T: Copy> ReadStream<T> {
     pub fn wait_for_read(&self, need: usize) -> bool {
         // Check for a closed writer *before* looking at the amount of data.
         // The other order could miss data committed just before the close.
+        #[cfg(rustradio_verif)]
+        crate::verif::named_point("rc");
         let closed = Arc::strong_count(&self.circ) == 1;
         self.circ.wait_for_read(need) < need && closed
     }
@@ -259,6 +261,8 @@ impl<T: Copy> WriteStream<T> {
     pub fn wait_for_write(&self, need: usize) -> bool {
         // Check for a closed reader *before* looking at the free space.
         // The other order could miss space freed just before the close.
+        #[cfg(rustradio_verif)]
+        crate::verif::named_point("rc");
         let closed = Arc::strong_count(&self.circ) == 1;
         self.circ.wait_for_write(need) < need && closed
     }
@@ -373,6 +377,8 @@ impl<T> NCReadStream<T> {
         crate::verif::emit(format!("\"ev\":\"call\",\"op\":\"nc_eof\",\"m\":{}", self.q.0.id()));
         // Check for a closed writer *before* checking for emptiness. The
         // other order could miss a packet pushed just before the close.
+        #[cfg(rustradio_verif)]
+        crate::verif::named_point("rc");
         let closed = Arc::strong_count(&self.q) == 1;
         if !self.q.0.lock().unwrap().is_empty() {
             false
